@@ -489,7 +489,7 @@ async fn run_accept_cases(recs: &mut Vec<Rec>, cases: Vec<Vec<Option<Option<usiz
     for evs in cases {
         *idx += 1;
         if only.map_or(false, |o| o != *idx) { continue; }
-        let line = format!("accept {}", evs.iter().map(|e| match e { None => "c".to_string(), Some(None) => "f".to_string(), Some(Some(k)) => format!("e{}", k) }).collect::<Vec<_>>().join(","));
+        let line = format!("accept {}", evs.iter().map(|e| match e { None => "c".to_string(), Some(None) => "f".to_string(), Some(Some(1000)) => "p".to_string(), Some(Some(k)) => format!("e{}", k) }).collect::<Vec<_>>().join(","));
         let srv = stream_server_with(30_000, None);
         PANICKED.store(false, Ordering::SeqCst);
         let mut obs = String::new();
@@ -501,10 +501,15 @@ async fn run_accept_cases(recs: &mut Vec<Rec>, cases: Vec<Vec<Option<Option<usiz
                     settle(1).await;
                     let served = probe(&mut c, 0x6400 + j as u16).await;
                     obs.push(if served { 's' } else { '-' });
-                    chk(recs, served, "accept_error_stops_server", &line, format!("connection #{} was not served", j));
+                    // root cause by what preceded: a connection setup that never completes, or an accept error
+                    let after_stall = evs[..j].iter().any(|e| matches!(e, Some(Some(1000))));
+                    let after_error = evs[..j].iter().any(|e| matches!(e, Some(Some(k)) if *k != 1000) || matches!(e, Some(None)));
+                    let class = if after_stall && !after_error { "connection_setup_blocks_accept" } else { "accept_error_stops_server" };
+                    chk(recs, served, class, &line, format!("connection #{} was not served", j));
                     clients.push(c);
                 }
                 Some(None) => { srv.listener.push(AcceptEv::StreamFails("192.0.2.9:9999".parse().unwrap())); settle(1).await; obs.push('-'); }
+                Some(Some(1000)) => { srv.listener.push(AcceptEv::Stalled("192.0.2.9:9998".parse().unwrap())); settle(1).await; obs.push('-'); }
                 Some(Some(k)) => { srv.listener.push(AcceptEv::Error(accept_error(*k))); settle(1).await; obs.push('-'); }
             }
         }
@@ -513,6 +518,46 @@ async fn run_accept_cases(recs: &mut Vec<Rec>, cases: Vec<Vec<Option<Option<usiz
         drop(clients);
         drop(srv);
         settle(1).await;
+    }
+}
+
+/// T2 + oracle: DgramServer::reconfigure - the limit configured when a datagram is received applies to it
+async fn run_recfg_cases(recs: &mut Vec<Rec>, cases: Vec<(u16, Vec<usize>, Option<u16>, Option<u16>, Option<u16>, Resp)>, idx: &mut u64, only: Option<u64>) {
+    for (id, labels, client, cfg1, cfg2, resp) in cases {
+        *idx += 1;
+        if only.map_or(false, |o| o != *idx) { continue; }
+        let b2 = 1u8;
+        let rb2 = 0x80 | (b2 & 0x79) | if resp.aa { 4 } else { 0 };
+        let line = format!("recfg {} {} {} {} {} {} {} {} {} {}", id, b2, labels_str(&labels), opt_str(client), opt_str(cfg1), opt_str(cfg2), rb2, resp.n_an, resp.an_len,
+            match resp.opt { Some((s, d)) => format!("{}:{}", s, d), None => "-".into() });
+        let mk_cfg = |v: Option<u16>| { let mut c = dgram::Config::new(); c.set_max_response_size(v); c };
+        let sh = Shared::default();
+        let srv = Arc::new(DgramServer::with_config(MockSock::default(), VecBufSource, stack(&sh), mk_cfg(cfg1)));
+        let sock = srv.source();
+        let s2 = srv.clone();
+        let _h = tokio::spawn(async move { s2.run().await });
+        sh.table.lock().unwrap().insert(id, Beh::single(Resp { b3: 0, n_ar: 0, ..resp.clone() }));
+        let q = mk_query(id, b2, &labels, 1, client);
+        let mut obs = vec![];
+        let mut lens = vec![];
+        for step in 0..2 {
+            if step == 1 { let _ = srv.reconfigure(mk_cfg(cfg2)); settle(2).await; }
+            sock.inject(q.clone(), client_addr());
+            settle(10).await;
+            let outv = sock.take_out();
+            match outv.first().and_then(|(_, d)| view(d).map(|v| (d.len(), v))) {
+                Some((l, v)) if outv.len() == 1 => { obs.push(format!("len={} tc={} id={} cnt={},{},{},{} opt={} b2={}", l, v.tc as u8, v.id, v.qd, v.an, v.ns, v.ar, v.opt as u8, v.b2)); lens.push(l); }
+                _ => { obs.push(format!("Bad{}", outv.len())); lens.push(usize::MAX); }
+            }
+        }
+        recs.push(Rec::Case(line.clone(), format!("Ok {}", obs.join(" ; ")), "recfg"));
+        // oracle: each response within the limit configured when its request was received
+        let eff = |c: Option<u16>| c.map(|v| v.clamp(512, 4096));
+        chk(recs, lens[0] <= text_limit(client, eff(cfg1)), "udp_oversize", &line, format!("before the reconfiguration: {} octets, limit {}", lens[0], text_limit(client, eff(cfg1))));
+        chk(recs, lens[1] <= text_limit(client, eff(cfg2)), "udp_oversize_after_reconfigure", &line,
+            format!("after DgramServer::reconfigure({}): {} octets sent, the property allows {} (request {})", opt_str(cfg2), lens[1], text_limit(client, eff(cfg2)), hex(&q)));
+        let _ = srv.shutdown();
+        settle(2).await;
     }
 }
 
@@ -816,9 +861,14 @@ impl AsyncDgramSock for MockSock {
 }
 
 /// what the listener's poll_accept() yields next
-enum AcceptEv { Conn(DuplexStream, SocketAddr), Error(io::Error), StreamFails(SocketAddr) }
+enum AcceptEv { Conn(DuplexStream, SocketAddr), Error(io::Error), StreamFails(SocketAddr), Stalled(SocketAddr) }
 #[derive(Default)]
-struct MockListener { q: Mutex<VecDeque<AcceptEv>>, waker: Mutex<Option<std::task::Waker>> }
+struct MockListener {
+    q: Mutex<VecDeque<AcceptEv>>,
+    waker: Mutex<Option<std::task::Waker>>,
+    /// keeps the setup of stalled connections pending for as long as the listener lives
+    stalled: Mutex<Vec<tokio::sync::oneshot::Sender<()>>>,
+}
 impl MockListener {
     fn connect(&self, port: u16) -> DuplexStream { self.connect_buf(port, 1 << 20) }
     fn connect_buf(&self, port: u16, buf: usize) -> DuplexStream {
@@ -831,15 +881,23 @@ impl MockListener {
         if let Some(w) = self.waker.lock().unwrap().take() { w.wake(); }
     }
 }
+/// the future of an accepted stream: ready, failing, or (a peer that never completes
+/// its TLS handshake) pending for ever
+type SetupFuture = Pin<Box<dyn Future<Output = Result<DuplexStream, io::Error>> + Send>>;
 impl AsyncAccept for MockListener {
     type Error = io::Error;
     type StreamType = DuplexStream;
-    type Future = std::future::Ready<Result<DuplexStream, io::Error>>;
+    type Future = SetupFuture;
     fn poll_accept(&self, cx: &mut Context<'_>) -> Poll<io::Result<(Self::Future, SocketAddr)>> {
         match self.q.lock().unwrap().pop_front() {
-            Some(AcceptEv::Conn(s, a)) => Poll::Ready(Ok((std::future::ready(Ok(s)), a))),
+            Some(AcceptEv::Conn(s, a)) => Poll::Ready(Ok((Box::pin(std::future::ready(Ok(s))) as SetupFuture, a))),
             Some(AcceptEv::Error(e)) => Poll::Ready(Err(e)),
-            Some(AcceptEv::StreamFails(a)) => Poll::Ready(Ok((std::future::ready(Err(io::Error::new(io::ErrorKind::InvalidData, "handshake failed"))), a))),
+            Some(AcceptEv::StreamFails(a)) => Poll::Ready(Ok((Box::pin(std::future::ready(Err(io::Error::new(io::ErrorKind::InvalidData, "handshake failed")))) as SetupFuture, a))),
+            Some(AcceptEv::Stalled(a)) => {
+                let (tx, rx) = tokio::sync::oneshot::channel::<()>();
+                self.stalled.lock().unwrap().push(tx);
+                Poll::Ready(Ok((Box::pin(async move { let _ = rx.await; Err(io::Error::new(io::ErrorKind::TimedOut, "setup abandoned")) }) as SetupFuture, a)))
+            }
             None => { *self.waker.lock().unwrap() = Some(cx.waker().clone()); Poll::Pending }
         }
     }
@@ -1182,9 +1240,33 @@ fn main() {
         vec![None, Some(Some(0)), None, None],                      // served, ECONNABORTED, served, served
         vec![Some(Some(1)), None], vec![Some(None), None], vec![None, Some(Some(11)), Some(None), Some(Some(2)), None]];
     for k in 0..12 { accept_cases.push(vec![None, Some(Some(k)), None]); }
+    // a peer that never completes its connection setup, before other clients connect
+    accept_cases.push(vec![None, Some(Some(1000)), None, None]);
+    accept_cases.push(vec![Some(Some(1000)), None]);
+    accept_cases.push(vec![Some(Some(1000)), Some(Some(1000)), Some(None), None, Some(Some(0)), None]);
     for _ in 0..(if a.thorough { 300 } else { 40 } * scale) {
         let n = r.range(2, 7) as usize;
-        accept_cases.push((0..n).map(|_| match r.below(5) { 0 | 1 => None, 2 => Some(None), _ => Some(Some(r.below(12) as usize)) }).collect());
+        accept_cases.push((0..n).map(|_| match r.below(6) { 0 | 1 => None, 2 => Some(None), 3 => Some(Some(1000)), _ => Some(Some(r.below(12) as usize)) }).collect());
+    }
+    let mut recfg_cases: Vec<(u16, Vec<usize>, Option<u16>, Option<u16>, Option<u16>, Resp)> = vec![];
+    {
+        let big = |total: usize, labels: &Vec<usize>, with_opt: bool| Resp { aa: false, b3: 0, n_an: 1, an_len: (total - 12 - qlen_of(labels) - if with_opt { 11 } else { 0 }) as u16, n_ar: 0, ar_len: 11, opt: None };
+        let l = vec![7usize, 3];
+        recfg_cases.push((0xc000, l.clone(), Some(4096), Some(1232), Some(512), big(1012, &l, true)));   // lowered: must truncate afterwards
+        recfg_cases.push((0xc001, l.clone(), Some(4096), Some(512), Some(4096), big(1012, &l, true)));   // raised
+        recfg_cases.push((0xc002, l.clone(), Some(4096), Some(4096), None, big(3000, &l, true)));        // limit removed
+        recfg_cases.push((0xc003, l.clone(), Some(1000), None, Some(600), big(900, &l, true)));
+        recfg_cases.push((0xc004, l.clone(), None, Some(4096), Some(512), big(500, &l, false)));
+        for i in 0..(if a.thorough { 800 } else { 100 } * scale) {
+            let labels = pick_labels(&mut r);
+            let client = if r.chance(1, 4) { None } else { Some(pick_size(&mut r)) };
+            let pc = |r: &mut Rng| match r.below(5) { 0 => None, 1 => Some(512u16), 2 => Some(4096), 3 => Some(pick_size(r)), _ => Some(1232) };
+            let (c1, c2) = (pc(&mut r), pc(&mut r));
+            let near = text_limit(client, if r.chance(1, 2) { c1 } else { c2 }.map(|v| v.clamp(512, 4096)));
+            let mut resp = pick_resp(&mut r, near, qlen_of(&labels));
+            resp.n_ar = 0; resp.b3 = 0;
+            recfg_cases.push((0xc100 + (i % 0xf00) as u16, labels, client, c1, c2, resp));
+        }
     }
     let n_tcp = if a.thorough { 6_000 } else { 800 } * scale;
     let mut tcp_cases: Vec<SrvCase> = vec![];
@@ -1237,6 +1319,7 @@ fn main() {
         }};
     }
     phase!("srv cases", recs => run_srv_cases(&mut recs, srv_cases, &mut idx, only));
+    phase!("recfg cases", recs => run_recfg_cases(&mut recs, recfg_cases, &mut idx, only));
     phase!("accept cases", recs => run_accept_cases(&mut recs, accept_cases, &mut idx, only));
     phase!("idle and limit cases", recs => run_idle_limit(&mut recs, idle_cases, limit_cases, &mut idx, only));
     phase!("ck cases", recs => run_ck_cases(&mut recs, ck_cases, &mut idx, only));
